@@ -4,6 +4,7 @@ import (
 	"context"
 	"encoding/json"
 	"fmt"
+	"os"
 	"strings"
 	"sync"
 	"testing"
@@ -178,6 +179,10 @@ func runC11(s *sut.SUT, cs c11Case) (rule, detail string, nontrivial bool) {
 	}
 	// unsent: sizes of messages published and not yet sent (or made deliverable again)
 	var unsent []int
+	// unsentGrp[i]: messages made deliverable by ONE request share a retry time,
+	// so the order in which the stream's fetch sees them is not defined
+	var unsentGrp []int
+	grpSeq := 0
 	npub := 0
 	publish := func(classes []int) error {
 		req := &pubsubpb.PublishRequest{Topic: c11T}
@@ -186,6 +191,8 @@ func runC11(s *sut.SUT, cs c11Case) (rule, detail string, nontrivial bool) {
 			npub++
 			req.Messages = append(req.Messages, &pubsubpb.PubsubMessage{Data: []byte(p)})
 			unsent = append(unsent, len(p))
+			grpSeq++
+			unsentGrp = append(unsentGrp, grpSeq)
 		}
 		_, err := s.Pub.Publish(ctx, req)
 		return err
@@ -216,7 +223,7 @@ func runC11(s *sut.SUT, cs c11Case) (rule, detail string, nontrivial bool) {
 	}
 	if cs.Grpc {
 		// the real StreamingPull RPC: requests go through the gRPC adaptation layer
-		st, err := s.Sub.StreamingPull(sctx)
+		st, err := s.Sub.StreamingPull(sut.ActorRPC(sctx, "stream"))
 		if err != nil {
 			cancel()
 			return "harness", err.Error(), false
@@ -265,7 +272,7 @@ func runC11(s *sut.SUT, cs c11Case) (rule, detail string, nontrivial bool) {
 		conn.recv <- &actions.MessageStreamRequest{FlowControl: &actions.FlowControl{MaxMessages: cs.MaxMsgs, MaxBytes: cs.MaxBytes}}
 		go func() {
 			ms := &actions.MessageStreamer{Client: s.Client, SubscriptionName: c11S, AutomaticNack: true}
-			done <- ms.Go(sctx, conn)
+			done <- ms.Go(sut.WithActor(sctx, "stream"), conn)
 		}()
 		sendAck = func(ids []uuid.UUID) { conn.recv <- &actions.MessageStreamRequest{Ack: ids} }
 		sendNack = func(ids []uuid.UUID) { conn.recv <- &actions.MessageStreamRequest{Nack: ids} }
@@ -291,14 +298,39 @@ func runC11(s *sut.SUT, cs c11Case) (rule, detail string, nontrivial bool) {
 		if n >= cs.MaxMsgs {
 			return false
 		}
-		cands := unsent
-		if k := cs.MaxMsgs - n; headOnly && k < len(cands) {
-			cands = cands[:k]
-		}
-		for _, sz := range cands {
-			if n == 0 || b+sz <= cs.MaxBytes {
-				return true
+		if !headOnly {
+			for _, sz := range unsent {
+				if n == 0 || b+sz <= cs.MaxBytes {
+					return true
+				}
 			}
+			return false
+		}
+		// the fetch sees k rows, oldest retry time first; within a group of
+		// equal retry times any subset may be the one it sees, so a fitting
+		// message is certainly visible only if the non-fitting members of the
+		// group cannot fill the remaining rows
+		k := cs.MaxMsgs - n
+		for i := 0; i < len(unsent) && k > 0; {
+			j := i
+			fit, nofit := 0, 0
+			for j < len(unsent) && unsentGrp[j] == unsentGrp[i] {
+				if n == 0 || b+unsent[j] <= cs.MaxBytes {
+					fit++
+				} else {
+					nofit++
+				}
+				j++
+			}
+			if k >= j-i {
+				if fit > 0 {
+					return true
+				}
+				k -= j - i
+			} else {
+				return fit > 0 && nofit < k
+			}
+			i = j
 		}
 		return false
 	}
@@ -316,6 +348,7 @@ func runC11(s *sut.SUT, cs c11Case) (rule, detail string, nontrivial bool) {
 			for i, u := range unsent {
 				if u == sz {
 					unsent = append(unsent[:i], unsent[i+1:]...)
+					unsentGrp = append(unsentGrp[:i], unsentGrp[i+1:]...)
 					break
 				}
 			}
@@ -371,6 +404,20 @@ func runC11(s *sut.SUT, cs c11Case) (rule, detail string, nontrivial bool) {
 					continue
 				}
 				n, b, _, _ := conn.snapshot()
+				if os.Getenv("VERIF_DEBUG") != "" {
+					rows, _ := s.Raw.Query("select length(m.payload), d.attempts, d.attempt_at, d.completed_at is not null from deliveries d join messages m on m.id=d.message_id order by d.attempt_at")
+					for rows != nil && rows.Next() {
+						var l, a int
+						var at string
+						var c bool
+						_ = rows.Scan(&l, &a, &at, &c)
+						fmt.Printf("   row len=%d attempts=%d attempt_at=%s completed=%v\n", l, a, at, c)
+					}
+					if rows != nil {
+						rows.Close()
+					}
+					fmt.Printf("   now=%s outstanding=%v parked=%v\n", time.Now().UTC().Format(time.RFC3339Nano), conn.out, sut.TheGate)
+				}
 				return "stall", fmt.Sprintf("after %s: %d messages / %d bytes are outstanding on the stream (limits %d / %d), %d deliverable messages remain (sizes %v) of which at least one fits, but nothing was sent for 2 s", after, n, b, cs.MaxMsgs, cs.MaxBytes, len(unsent), unsent)
 			}
 		}
@@ -411,6 +458,10 @@ func runC11(s *sut.SUT, cs c11Case) (rule, detail string, nontrivial bool) {
 			c.mu.Unlock()
 			if ids := conn.take(st.N); len(ids) > 0 {
 				unsent = append(unsent, sizes...)
+				grpSeq++
+				for range sizes {
+					unsentGrp = append(unsentGrp, grpSeq)
+				}
 				if st.K == "mixed" && cs.Grpc {
 					// the same request also extends the deadline of (up to N) other outstanding messages
 					conn.mu.Lock()
@@ -434,10 +485,70 @@ func runC11(s *sut.SUT, cs c11Case) (rule, detail string, nontrivial bool) {
 				for _, id := range ids {
 					ss = append(ss, id.String())
 				}
-				if _, err := s.Sub.Acknowledge(ctx, &pubsubpb.AcknowledgeRequest{Subscription: c11S, AckIds: ss}); err != nil {
+				// Z = 0: one Acknowledge call; 1: one call per id, back to back; 2:
+				// one call per id, concurrently (a second commit landing while the
+				// stream is still digesting the first one's notification)
+				var err error
+				switch {
+				case st.Z == 0 || len(ss) == 1:
+					_, err = s.Sub.Acknowledge(ctx, &pubsubpb.AcknowledgeRequest{Subscription: c11S, AckIds: ss})
+				case st.Z == 1:
+					for _, id := range ss {
+						if _, e := s.Sub.Acknowledge(ctx, &pubsubpb.AcknowledgeRequest{Subscription: c11S, AckIds: []string{id}}); e != nil {
+							err = e
+						}
+					}
+					freed["extack-burst"] = true
+				default:
+					errs := make(chan error, len(ss))
+					for _, id := range ss {
+						go func(id string) {
+							_, e := s.Sub.Acknowledge(ctx, &pubsubpb.AcknowledgeRequest{Subscription: c11S, AckIds: []string{id}})
+							errs <- e
+						}(id)
+					}
+					for range ss {
+						if e := <-errs; e != nil {
+							err = e
+						}
+					}
+					freed["extack-burst"] = true
+				}
+				if err != nil {
 					return "harness", err.Error(), false
 				}
 				freed["extack"] = true
+			}
+		case "extack-window":
+			// two Acknowledge calls outside the stream, the second one placed by
+			// the gate scheduler: it runs while a goroutine of the stream sits
+			// right after a query it made outside a transaction (the pass that
+			// digests the first ack's notification)
+			ids := conn.take(2)
+			if len(ids) == 0 {
+				break
+			}
+			sched := sut.NewScheduler("stream")
+			sched.Only = map[string]bool{"postQuery": true}
+			sut.TheGate.SetScheduler(sched)
+			var err error
+			parked := 0
+			for k, id := range ids {
+				if _, e := s.Sub.Acknowledge(ctx, &pubsubpb.AcknowledgeRequest{Subscription: c11S, AckIds: []string{id.String()}}); e != nil {
+					err = e
+				}
+				if k == 0 {
+					parked = sched.WaitParked(1, 300*time.Millisecond)
+				}
+			}
+			sched.ReleaseAll()
+			sut.TheGate.SetScheduler(nil)
+			if err != nil {
+				return "harness", err.Error(), false
+			}
+			freed["extack"] = true
+			if parked > 0 && len(ids) == 2 {
+				freed["extack-window"] = true
 			}
 		case "publish":
 			classes := make([]int, st.N)
@@ -470,7 +581,7 @@ func genC11(rt *rapid.T) c11Case {
 	}
 	ns := rapid.IntRange(2, 9).Draw(rt, "nsteps")
 	for i := 0; i < ns; i++ {
-		k := rapid.SampledFrom([]string{"ack", "ack", "nack", "nack0", "nack0", "extack", "extack", "publish", "wait", "mixed"}).Draw(rt, "step")
+		k := rapid.SampledFrom([]string{"ack", "ack", "nack", "nack0", "nack0", "extack", "extack", "extack-window", "publish", "wait", "mixed"}).Draw(rt, "step")
 		cs.Steps = append(cs.Steps, c11Step{K: k, N: rapid.IntRange(1, 3).Draw(rt, "n"), Z: rapid.IntRange(0, 2).Draw(rt, "z")})
 	}
 	cs.Grpc = rapid.IntRange(0, 2).Draw(rt, "grpc") == 0
@@ -515,6 +626,9 @@ func TestC11(t *testing.T) {
 				}
 				if st.K == "mixed" && cs.Grpc {
 					sig["mixed_deadlines_in_one_request"] = true
+				}
+				if st.K == "extack-window" {
+					sig["external_ack_placed_after_stream_query"] = true
 				}
 			}
 			failWith(rt, failure{Rule: rule, Detail: detail, Sig: sig, Replay: cs})
